@@ -27,18 +27,20 @@ def kindOf (s : Str) : Kind :=
   | "modproc" => .modproc | "type" => .type | "variable" => .variable | "component" => .variable
   | "enumerator" => .variable | "boundproc" => .boundproc | "finalproc" => .finalproc
   | "generic" => .generic | "iface" => .iface | "absint" => .absint | "enum" => .enum
-  | "common" => .common | "namelist" => .namelist | _ => .arg
+  | "common" => .common | "namelist" => .namelist | "retvar" => .retvar | _ => .arg
 
 def natsOf (s : Str) : List Nat :=
   if s == [] then [] else (splitOn ';' s).map natOf
 
-/-- one preorder node: `id,kind,perm,doc,disp,pint,nchildren,refs` -/
+/-- one preorder node: `id,kind,perm,doc,disp,pint,nchildren,refs,ext`; `visible` as the constructor
+    of the class leaves it -/
 def nodeOf (s : Str) : Info × Nat :=
   match splitOn ',' s with
-  | [id, k, p, d, disp, pint, n, refs] =>
+  | [id, k, p, d, disp, pint, n, refs, ext] =>
     ({ id := natOf id, kind := kindOf k, perm := wordOf p, doc := d == ['1'], disp := wordsOf disp,
        pint := if pint == ['1'] then some true else if pint == ['0'] then some false else none,
-       refs := natsOf refs, visible := false }, natOf n)
+       refs := natsOf refs, visible := initVisible (kindOf k),
+       ext := if ext == ['-'] || ext == [] then none else some (natOf ext) }, natOf n)
   | _ => (default, 0)
 
 mutual
@@ -104,9 +106,11 @@ def dispatchC05 : List Str → Option (List Str)
         let toks := nodes.map nodeOf
         match parseKids (2 * toks.length + 2) (natOf nf) toks with
         | some (fs, []) =>
-          let p := entsToList fs
+          -- the tree as `correlate` leaves it: extending types carry the members they inherit
+          let p := inheritProject (entsToList fs) toks.length
           let q := pruneProject cfg p
-          some ["ok".toList, showIds (idsOf q), showIds (visibleIdsOf q), showIds (pageIds q), showIds (shownIds cfg p)]
+          some ["ok".toList, showIds (idsOf q), showIds (visibleIdsOf q), showIds (sitePageIds cfg p), showIds (shownIds cfg p),
+                joinSep ';' ((pagesShown cfg p).map fun (pg, ids) => showNat pg ++ [':'] ++ joinSep '.' (ids.map showNat))]
         | _ => some ["bad-tree".toList]
       | _ => some ["bad-request".toList]
     else if cmd == "c05.links".toList then
@@ -118,7 +122,7 @@ def dispatchC05 : List Str → Option (List Str)
         let toks := nodes.map nodeOf
         match parseKids (2 * toks.length + 2) (natOf nf) toks with
         | some (fs, []) =>
-          let p := entsToList fs
+          let p := inheritProject (entsToList fs) toks.length
           let q := pruneProject cfg p
           let aliases := (pairsOf al).map fun (a, b) => (a, natOf b)
           let links := (pairsOf lks).map fun (a, b) => (a, (splitOn '.' b).map natOf)
